@@ -1,4 +1,5 @@
 import PMC.Model.Graph
+import PMC.Spec.Reach
 import Mathlib.Logic.Relation
 import Mathlib.Tactic
 
@@ -10,8 +11,6 @@ open Relation
 
 variable {σ : Type} [DecidableEq σ]
 
-def Edge (next : σ → List σ) (a b : σ) : Prop := b ∈ next a
-abbrev Reach (next : σ → List σ) := ReflTransGen (Edge next)
 
 /-- the gray path, deepest node first: each node is a successor of the following one, discovered later -/
 def GrayChain (next : σ → List σ) (D : σ → Nat) : List σ → Prop
